@@ -221,7 +221,7 @@ def args_parser_match_array(val, arr, match_type=1):
     val_types = _vect_get_type_id(val)
     b = val_types == 1
     val[b] = np.char.upper(val[b].astype(str))
-    lookup_array = np.ravel(arr).copy()
+    lookup_array = np.ravel(np.asarray(arr, object)).copy()  # No text array.
     arr_types = _vect_get_type_id(lookup_array)
     b = arr_types == 1
     lookup_array[b] = np.char.upper(lookup_array[b].astype(str))
@@ -279,7 +279,9 @@ FUNCTIONS['_XLFN._XLWS.FILTER'] = FUNCTIONS['FILTER'] = wrap_func(xfilter)
 
 def args_parser_lookup_array(
         lookup_val, lookup_vec, result_vec=None, match_type=1):
-    result_vec = np.ravel(lookup_vec if result_vec is None else result_vec)
+    result_vec = np.ravel(np.asarray(
+        lookup_vec if result_vec is None else result_vec, object
+    ))
     return args_parser_match_array(lookup_val, lookup_vec, match_type) + (
         result_vec,
     )
@@ -318,6 +320,7 @@ def args_parser_hlookup(val, vec, index, match_type=1, transpose=False):
     except IndexError:
         raise FoundError(err=Error.errors['#REF!'])
     vec = vec[0].A1.ravel()
+    raise_errors(match_type)  # `bool` would turn an error into TRUE.
     return args_parser_lookup_array(val, vec, ref, bool(match_type))
 
 
